@@ -40,6 +40,31 @@ claim(
     "DESIGN.md section 6 C09",
 )
 
+claim(
+    "C01",
+    "PARTIAL. Theorems (Lean): the specification `denote` (sum of products) is invariant under commuting / reassociating / "
+    "distributing operators and `a - b = a + (-1)*b`; the desugaring pass (ported, exact tree correspondence with the code on every "
+    "run) preserves the specification for every assignment outside the signature of known finding F12 (`desugar_correct`), with a "
+    "closed witness that the signature is real; stored content is format independent (C09 `decode_encode`). The back half "
+    "(iteration graph -> IR) is not yet a Lean function: the IR the compiler actually emits is executed on the Lean IR machine and on "
+    "the real LLVM back end for enumerated problems x formats x inputs and compared with the specification, decoding raw arrays.",
+    "Lean 4 theorems on hand-written models of spec+desugar; emitted kernels executed on the Lean IR machine and LLVM vs the spec",
+    "DESIGN.md section 6 C01",
+    "Partial: 'for all inputs of every emitted kernel' is small-scope execution, not a theorem. Values are small integers in binary64.",
+)
+claim(
+    "C07",
+    "Full proof at the model level: `peephole_stmt_sound`/`peephole_expr_sound` (every IR program, state and fuel: the optimised "
+    "program yields the same final state and a numerically equal return value with no more iterations/steps, or stops with an int32 "
+    "overflow - finding F8) and `peephole_stmt_sound_stable` (no overflow alternative on the decidable retyping-free fragment). The "
+    "Lean port of the optimiser is compared tree-for-tree with tensora.ir.peephole on exhaustive depth<=1 typed trees, sampled deeper "
+    "trees, statement trees and every generated kernel; the Python-optimised programs are additionally executed against the "
+    "originals on the Lean machine over small environments.",
+    "Lean 4 soundness proof of the ported optimiser over a big-step IR machine + exact tree correspondence with the Python optimiser",
+    "DESIGN.md section 6 C07",
+    "Floats: theorems assume the `FloatLaws` hypotheses (binary64 without NaN modulo sign of zero; `Int` is a lawful instance); the driver runs Lean Float.",
+)
+
 ALL = [f"C{n:02d}" for n in range(1, 17)]
 for p in ALL:
     if p not in CHECKS:
